@@ -50,6 +50,7 @@ func runC03(c *Ctx) {
 		return
 	}
 	ruleSendGuard(c, a, "SENDGUARD")
+	ruleClientAddrFresh(c, a, "REPLYADDR")
 	ruleKeyBind(c, a)
 	ruleBuffers(c, a, "NOALIAS")
 	ruleReplyAddr(c, a)
@@ -74,6 +75,7 @@ func runC04(c *Ctx) {
 		return
 	}
 	ruleNatKey(c, a)
+	ruleClientAddrFresh(c, a, "NATKEY")
 	ruleOwnSock(c, a)
 	ruleSendGuard(c, a, "CREATE")
 	ruleBuffers(c, a, "OWNBUF")
